@@ -24,7 +24,7 @@ RULE = ("cases are (spec tree, class, byte string, entry chunked mode): for seed
 ASSUMPTIONS = [
     "reference interpreter + reference reader are the eo-protocol reading rules (DESIGN 4.2)",
     "hostile lengths for which the reference itself would need more than 3*10^3 (quick) / 4*10^4 (thorough) element reads are skipped and counted (oracle budget)",
-    "termination is decided on logical fuel: 20 x (reference reader operations) + 1000 operations through the proxy",
+    "termination is decided on logical fuel: 40 x (reference reader interactions: reads, next_chunk, remaining queries) + 4000 interactions through the proxy",
 ]
 FLOORS = {"deserializations-compared": 500, "lockstep-reader-ops": 2000}
 SHARD_TIMEOUT = {"quick": 900, "thorough": 5400}
@@ -124,7 +124,7 @@ def one(rec, t, ti, name, data, mode):
     if isinstance(wexc, OracleBudget):
         rec.count("oracle-budget-skips")
         return
-    fuel = 20 * mr.ops + 1000
+    fuel = 40 * mr.touches + 4000  # interactions: reads, next_chunk, remaining / position / mode accesses
     real = t.EoReader(data)
     g = guardmod.install(real, data)
     model = RefReader(data)
@@ -141,7 +141,7 @@ def one(rec, t, ti, name, data, mode):
             mech = "unsized-array-of-chunked-struct-never-terminates"
         else:
             mech = "does-not-terminate"
-        rec.violation(mech, "tree %d %s.deserialize(%s, chunked=%r) used more than %d reader operations (reference needs %d): %s" % (ti, name, data.hex(), mode, fuel, mr.ops, wexc),
+        rec.violation(mech, "tree %d %s.deserialize(%s, chunked=%r) used more than %d reader interactions (reference needs %d): %s" % (ti, name, data.hex(), mode, fuel, mr.touches, wexc),
                       case)
         return
     except Divergence as dv:
